@@ -332,6 +332,7 @@ class FullRunner(Runner):
         self.requesters = {}
         self.n_assets = 0
         self.names = {}
+        self._sink_cb = {}
         env = self.env
         runner = self
         orig_add = env.add_datapoint
@@ -463,6 +464,8 @@ class FullRunner(Runner):
         setq = None if q == '-' else int(q)
 
         def cb(dev, part):
+            if isinstance(dev, Sink):
+                self.sink_cb_check(dev, part)
             if set_cycle is not None:
                 dev.cycle_time = set_cycle / self.tick
             dev.offset_next_cycle_time(off / self.tick)
@@ -472,6 +475,24 @@ class FullRunner(Runner):
                 if setq is not None:
                     part.quality = setq
         return cb
+
+    def sink_cb_check(self, sink, part):
+        """what a receive callback registered on a SINK sees: the sink's public counters already contain the part it
+        is being told about (count, summed value at receipt, own value); checked at the first callback of each receipt,
+        before any callback has changed the part"""
+        if self.probing:
+            return
+        st = self._sink_cb.setdefault(id(sink), {'n': 0, 'v': 0, 'last': None})
+        if st['last'] is part:
+            return
+        st['last'] = part
+        st['n'] += len(part.parts) if isinstance(part, Batch) else 1
+        st['v'] += part.value
+        seen = (sink.received_parts_count, sink.value_of_received_parts, sink.value)
+        if seen != (st['n'], st['v'], st['v']):
+            self.results.append(f'sinkcb-unbooked {self.didx(sink)} part={self.pidx(part)} inside its receive callback the sink reports '
+                                f'count={ival(seen[0])} received-value={ival(seen[1])} value={ival(seen[2])}, '
+                                f'with this part it has received count={st["n"]} value={ival(st["v"])}')
 
     def make_asset(self, toks):
         t = toks[0]
